@@ -17,7 +17,7 @@ from pandapower.pypower.idx_bus import VM, VA
 
 RULE = ("passive networks from vf/c02_gen.gen_desc(passive=True): r, g, pfe >= 0, symmetric impedances, arbitrary reactances / "
         "susceptances, phase shifters (shift 0/150/+-30, ideal and cross regulators), 2W/3W transformers t/pi model, xward, "
-        "impedance switches, shunts, sgens; non-trivial = converged net with a phase shift or tap off neutral")
+        "impedance switches, shunts, wards, sgens, PV gens (also at the slack bus), shunts/wards directly at the slack bus, 25 % nets with one ext_grid, no gens and purely resistive shunts run with numba=True (single-slack pfsoln); non-trivial = converged net with a phase shift or tap off neutral")
 ASSUMPTIONS = ["runpp / rundcpp are oracles (their voltages are inputs of the loss stage)",
                "nodal power balance at every bus (C01, other builder) is the hypothesis of C03_global_conservation; here the global sum is "
                "checked on the result tables of generated nets with constant-power loads only"]
@@ -110,12 +110,21 @@ def dc_oracle(ctx, d, terms, pend):
 
 def _one(ctx, d, terms, pend, sample=False):
     net = g.build(d)
+    # numba on: the single-slack fast pfsoln (pf/pfsoln_numba.py) is selected on nets with one ext_grid, no gens and no shunt columns
+    numba = bool(d.get("single_slack_resistive")) or ctx.rng.random() < 0.25
     try:
-        g.run_ac(net, d)
+        g.run_ac(net, d, numba=numba)
     except Exception as e:
         ctx.count("ac_raised_" + type(e).__name__)
         ctx.case(d, nontrivial=False)
         return
+    ctx.count("ac_numba_%s" % numba)
+    if d.get("single_slack_resistive"):
+        ctx.count("single_slack_resistive_nets")
+    if any(g_["bus"] == 0 for g_ in d.get("gens", [])):
+        ctx.count("gen_at_slack_bus_nets")
+    if any(s_["bus"] == 0 for s_ in d["shunts"]) or any(w_["bus"] == 0 for w_ in d.get("ward", [])):
+        ctx.count("shunt_or_ward_at_slack_bus_nets")
     ppc = net._ppc
     br, bus = ppc["branch"].real, ppc["bus"].real
     bis = np.asarray(ppc["internal"]["branch_is"], dtype=bool)
